@@ -351,6 +351,43 @@ pub fn same(a: f64, b: f64, tol: f64) -> bool {
     (a.is_nan() && b.is_nan()) || a == b || (a - b).abs() <= tol * tol_scale()
 }
 
+thread_local! {
+    static LONG_CASE: std::cell::Cell<bool> = const { std::cell::Cell::new(false) };
+}
+
+/// Mark the current execution as a case of the long family (round 2): the input class of every site
+/// key it reports gets the suffix `/long`, so that a defect which only shows from a length threshold
+/// on has a key of its own (it is a different defect than one of the short space, and must not be
+/// absorbed by a known finding of the short space). Set at the start of every execution.
+pub fn set_long_case(long: bool) {
+    LONG_CASE.with(|c| c.set(long));
+}
+
+thread_local! {
+    static LONG_DEEP: std::cell::Cell<bool> = const { std::cell::Cell::new(false) };
+}
+
+/// Thorough tier of the long family: the parameter sub-families that the quick tier restricts on a
+/// long axis (slice ranges, take pairs, partner lengths) are enumerated in full. A function of the
+/// job parameters only; set at the start of every execution.
+pub fn set_long_deep(deep: bool) {
+    LONG_DEEP.with(|c| c.set(deep));
+}
+
+pub fn long_deep() -> bool {
+    LONG_DEEP.with(|c| c.get())
+}
+
+fn class_key(class: &str) -> String {
+    // `large-offset` (cancellation in the one-pass variance) is a property of the values, not of the
+    // length: the same defect at any length, so the key is shared with the short space
+    if LONG_CASE.with(|c| c.get()) && class != "large-offset" {
+        format!("{}/long", class)
+    } else {
+        class.to_string()
+    }
+}
+
 pub struct Cx<'a> {
     /// `<component>.<operation>`
     pub op: &'a str,
@@ -362,11 +399,11 @@ pub struct Cx<'a> {
 
 impl<'a> Cx<'a> {
     pub fn fail(&self, sub: &str, msg: String) {
-        mc::violation(format!("{}:{}{}", self.op, self.class, sub), format!("{} {} — {}", self.op, (self.what)(), msg));
+        mc::violation(format!("{}:{}{}", self.op, class_key(self.class), sub), format!("{} {} — {}", self.op, (self.what)(), msg));
     }
     pub fn panic(&self, p: &PanicInfo) {
         let suffix = if p.is_overflow_check() { ":overflow-check" } else { "" };
-        mc::violation(format!("{}:{}:panic{}", self.op, self.class, suffix), format!("{} {} — must succeed but {}", self.op, (self.what)(), p.brief()));
+        mc::violation(format!("{}:{}:panic{}", self.op, class_key(self.class), suffix), format!("{} {} — must succeed but {}", self.op, (self.what)(), p.brief()));
     }
 }
 
@@ -451,7 +488,7 @@ pub fn expect_panic<R>(cx: &Cx, got: Result<R, PanicInfo>, show: impl Fn(&R) -> 
     match got {
         Err(_) => mc::count("incompatible_rejected"),
         Ok(r) => {
-            mc::violation(format!("{}:{}", cx.op, cx.class), format!("{} {} — incompatible operands must be rejected (panic) but the call returned {}", cx.op, (cx.what)(), show(&r)));
+            mc::violation(format!("{}:{}", cx.op, class_key(cx.class)), format!("{} {} — incompatible operands must be rejected (panic) but the call returned {}", cx.op, (cx.what)(), show(&r)));
         }
     }
 }
